@@ -120,7 +120,7 @@ func wgReport(rec *ev.Rec, sp *wgSpec, in wgInput, res *wgResult) string {
 	}
 	seenKnown := map[string]bool{}
 	for _, f := range res.Findings {
-		if !sp.aspects[f.Aspect] {
+		if !sp.aspects[f.Aspect] && f.Aspect != "panic" {
 			continue
 		}
 		if f.Known != "" {
